@@ -163,6 +163,11 @@ func runScenario(c Case) (res childResult) {
 	responder := world.NewResponder(o, "/ocsp", parties, world.OCSPAnswer{Kind: "good"})
 	ocspChk := world.NewOCSPChecker(world.OCSPOpts{Cache: 50 * time.Millisecond})
 	ocspChains := pki.ChainFor(ocspLeaf)
+	// a second certificate whose responder always says revoked: concurrent lookups of different certificates on one
+	// instance must not mix their answers
+	ocspLeaf2 := pki.Leaf("0f", nil, []string{o.URL("/ocsp2")})
+	world.NewResponder(o, "/ocsp2", world.NewOCSPParties(name+"2", pki.Issuer(), ocspLeaf2), world.OCSPAnswer{Kind: "revoked"})
+	ocspChains2 := pki.ChainFor(ocspLeaf2)
 
 	opts := world.CRLOpts{WorkDir: world.NewDir("c13"), Disk: c.Disk, Background: c.Background, Strict: c.Strict, Trusted: []*x509.Certificate{pki.Issuer().Cert}}
 	if c.Conf {
@@ -295,6 +300,14 @@ func runScenario(c Case) (res childResult) {
 				case "ocsp":
 					if i%3 == 0 {
 						responder.Set(world.OCSPAnswer{Kind: []string{"good", "revoked"}[(g+i)%2]})
+					}
+					if (g+i)%3 == 1 {
+						v := world.Ask(ocspChk, ocspChains2)
+						count("ocsp2->" + v.Kind)
+						if v.Kind != "revoked" {
+							fail("OCSP lookup of the certificate whose responder always answers 'revoked' returned %v while other certificates were looked up concurrently", v)
+						}
+						break
 					}
 					v := world.Ask(ocspChk, ocspChains)
 					count("ocsp->" + v.Kind)
